@@ -3,7 +3,7 @@ SIM = ("Trusted base: the simulated pika broker and the time model of DESIGN.md 
        "RabbitMQ offline); virtual clock/uuid seams; CPython. Bounds: the scenario corpus named in the evidence file.")
 ENGINES = [
     {"name": "explorer", "path": "harness/explorer.py", "kind_free_text": "stateless DFS explicit-state model checker over the real engine on a simulated broker (replay + fingerprint dedup + deviation bound)",
-     "serves_properties": ["C02", "C03", "C04", "C05", "C06", "C08", "C09", "C11"]},
+     "serves_properties": ["C02", "C03", "C04", "C05", "C10", "C06", "C08", "C09", "C11"]},
     {"name": "enumerator", "path": "checks/common.py", "kind_free_text": "exhaustive small-scope enumeration of inputs/programs from a stated finite alphabet, each evaluated on the real code and on a reference model under /verif/ref",
      "serves_properties": ["C01", "C07", "C08", "C12", "C14"]},
 ]
@@ -83,6 +83,14 @@ CHECKS["C04"] = {
             "status/output as crash-free; no correlation id requested twice. Double crashes in the thorough tier.",
     "note": SIM + " A crash is modelled as the broker seeing the connection drop (unacked deliveries requeued in place, flagged redelivered) with all volatile engine state lost; the JSON store file survives.",
     "technique": "exhaustive crash-point enumeration + explicit-state model checking of the implementation after restart",
+}
+CHECKS["C10"] = {
+    "engine": "explorer",
+    "text": "Explicit-state breadth-first search over store states: from the empty store, every call of a ~85-call alphabet (the nine actions x valid / each kind of invalid argument, malformed bodies) is issued in "
+            "every reachable state to the real Quart and Flask front ends backed by the real engine (snapshot/restore of the stores; StartExecution is run to quiescence); status, __type and body compared with a "
+            "two-map reference, stores compared before/after each error answer and with the reference after each success. Quick: first 60 distinct states per front end; thorough: to the fixed point.",
+    "note": "Trusted base: the reference map in checks/c10.py, Quart/Flask test clients in place of HTTP, simulated broker for StartExecution. " + SIM,
+    "technique": "explicit-state model checking (BFS over reachable store states with a reference-model oracle)",
 }
 NA = {}
 NOTES = "All checks run the real code of /repo's working tree (imported by path) over /verif/sim; see DESIGN.md."
